@@ -571,3 +571,72 @@ fn verif_loom_abort_vs_request() {
     });
     std::println!("VERIF_LOOM scenario={raw_out} executions={}", states.load(core::sync::atomic::Ordering::Relaxed));
 }
+
+/// The `Task` is dropped (its future was aborted) on one thread while an application thread is
+/// inside `Multiplexor::insert_new_flow` - the synchronous part of `new_stream_channel` /
+/// `request_bind`, which holds the flow map's write lock - and a writer of an established stream
+/// is parked waiting for credit. `Task::drop` does the local part of the wind-down: whatever the
+/// interleaving, once both threads are done the writer has been woken and its next poll reports
+/// the stream closed.
+///
+/// Scenario `VERIF_LOOM_SCENARIO=dropmap,<call>`: call `o` = a pending open, `b` = a pending bind.
+/// (Meant for a scheduler that switches threads inside critical sections - the shuttle-backed
+/// `loom` shim of the verification harness; loom's own exploration never runs the dropping thread
+/// between the other thread's acquisition and release of the lock.)
+#[test]
+fn verif_loom_task_drop_vs_locked_map() {
+    let raw = std::env::var("VERIF_LOOM_SCENARIO").unwrap_or_else(|_| String::from("dropmap,o"));
+    let bind = raw.split(',').nth(1) == Some("b");
+    let states = alloc::sync::Arc::new(core::sync::atomic::AtomicU64::new(0));
+    let st2 = states.clone();
+    let raw_out = raw.clone();
+    let mut b = loom::model::Builder::new();
+    if let Ok(p) = std::env::var("VERIF_LOOM_PREEMPTION_BOUND") {
+        b.preemption_bound = p.parse().ok();
+    }
+    b.check(move || {
+        st2.fetch_add(1, core::sync::atomic::Ordering::Relaxed);
+        let rng = ScriptRng(alloc::collections::VecDeque::new(), 0);
+        let (mux, taskdata) = crate::Multiplexor::new_detailed::<NoWs, NoClock>(
+            NoWs,
+            crate::config::Options::new().bind_buffer_size(4),
+            rng,
+        );
+        let crate::task::TaskData { task, tx_msg_rx, dropped_flows_rx } = taskdata;
+        // an established stream whose writer has no credit left
+        let (s, d) = mk(0);
+        mux.flows.write().insert(1, crate::FlowSlot::Established(d));
+        let cw = alloc::sync::Arc::new(CountWaker(loom::sync::atomic::AtomicUsize::new(0)));
+        let waker = core::task::Waker::from(cw.clone());
+        let cx = Context::from_waker(&waker);
+        assert!(
+            s.poll_obtain_write_permission(&cx).is_pending(),
+            "[{raw}] DROPMAP: a writer without credit did not wait"
+        );
+        let mux = alloc::sync::Arc::new(mux);
+        let mux2 = mux.clone();
+        let caller = loom::thread::spawn(move || {
+            if bind {
+                let (tx, rx) = tokio::sync::oneshot::channel();
+                (mux2.insert_new_flow(crate::FlowSlot::BindRequested(tx)), Some(rx), None)
+            } else {
+                let (tx, rx) = tokio::sync::oneshot::channel();
+                (mux2.insert_new_flow(crate::FlowSlot::Requested(tx)), None, Some(rx))
+            }
+        });
+        drop(task);
+        let _kept = caller.join().unwrap();
+        let woken = cw.0.load(Ordering::SeqCst);
+        let after = s.poll_obtain_write_permission(&cx);
+        assert!(
+            matches!(after, Poll::Ready(None)),
+            "[{raw}] DROPMAP CLOSED: the task is gone but the writer of an established stream is told {after:?}"
+        );
+        assert!(
+            woken >= 1,
+            "[{raw}] DROPMAP LOST WAKEUP: the task is gone and the writer waiting for credit was never woken"
+        );
+        drop((tx_msg_rx, dropped_flows_rx));
+    });
+    std::println!("VERIF_LOOM scenario={raw_out} executions={}", states.load(core::sync::atomic::Ordering::Relaxed));
+}
